@@ -18,12 +18,14 @@ What runs here (called from vlib/props/c20.py):
     with SFC_GET_MAX_ALL_CHANNELS; 1024 channels per file) and the MAT4 big-endian sample-rate field (double64_be_write /
     double64_be_read).
 C01 (run_c01_replace, called from vlib/props/c01.py): write -> close -> re-open -> read through the portable path for both types and
-both file byte orders; bit-exact for every finite value outside the known class KF-C01-ieee-tiny (subnormals and -0 come back as +0).
+both file byte orders; bit-exact for EVERY finite value (KF-C01-ieee-tiny is repaired: the writers encode exponent field 0 and -0.0; its
+witness is a regression test now).  Every stream carries `tiny_patterns`: exponent field 0 heavily (random, single-bit, all-ones-prefix
+mantissas, the neighbours of the smallest normal number, both signs, both zeros).
 A value where the implementation differs from the native representation on a normal number outside the known class is a
 VIOLATION whose replay holds that one value; a disagreement with the model that falsifies nothing is reported with
 no-failing-input-found.
 """
-import array, concurrent.futures, os, struct, subprocess, time
+import array, concurrent.futures, os, random, struct, subprocess, time
 
 FLUSH32 = 0x0DA24260            # old rule (before the fix: commit): smallest binary32 magnitude with (double) x >= 1e-30
 FLUSH64 = 0x39B4484BFEEBC2A0    # the double 1e-30 itself; both stay in the dictionary as regression points
@@ -61,6 +63,25 @@ def is_tiny(v, digits):
     """KF.ieeeTiny: exponent field 0 and not +0 (subnormal or -0)"""
     e = (v >> 23) & 0xFF if digits == 8 else (v >> 52) & 0x7FF
     return e == 0 and v != 0
+
+
+def tiny_patterns(digits, rnd, n):
+    """exponent field 0, heavily (the class of the repaired KF-C01-ieee-tiny / KF-C18-PEAK-SUBNORMAL): both zeros, every single-bit
+    mantissa, every all-ones prefix / suffix, the neighbours of the smallest normal number, then n seeded mantissas of random
+    length; both signs throughout"""
+    mb, eb = (23, 8) if digits == 8 else (52, 11)
+    full = (1 << mb) - 1
+    sign = 1 << (mb + eb)
+    pos = [0, 1, 2, 3, full, full - 1, full + 1, full + 2, (1 << mb) | full, 2 << mb]      # ... smallest normal, its successor, end of binade 1
+    for k in range(mb):
+        pos += [1 << k, (1 << k) - 1, (1 << k) + 1, full ^ (1 << k), full >> k, (full >> k) << k & full, (full << k) & full]
+    out = [p for p in pos] + [p | sign for p in pos]
+    for _ in range(n):
+        m = rnd.getrandbits(rnd.randrange(1, mb + 1))
+        if rnd.randrange(4) == 0:
+            m = (m << rnd.randrange(mb)) & full
+        out.append((rnd.getrandbits(1) << (mb + eb)) | m)
+    return out
 
 
 def dictionary(digits):
@@ -230,6 +251,18 @@ def kernel_stream(ctx, rt, n_rand, seed):
             ins.append(l[3:])
         elif l.startswith("out "):
             outs.append(l[4:])
+    # exponent field 0, heavily (the seeded sweep above gives it 1/256 resp. 1/2048 of the patterns)
+    tv = tiny_patterns(digits, random.Random(seed * 1000003 + 77), max(4096, n_rand // 16))
+    tlines = [hexline(tv[k:k + 4096], digits) for k in range(0, len(tv), 4096)]
+    if rt.endswith("le-read"):
+        tlines = [swap_items(t, digits) for t in tlines]
+    p = sfh_ieee(ctx, [rt], "".join(t + "\n" for t in tlines))
+    touts = p.stdout.split("\n")[:len(tlines)]
+    if p.returncode != 0 or len(touts) != len(tlines):
+        return {"routine": rt, "crash": "sfh ieee %s (exponent field 0 patterns) exit %d\n%s" % (rt, p.returncode, p.stderr[-2000:])}
+    ins += tlines
+    outs += touts
+    stats["exponent_field_0_patterns"] = len(tv)
     mods = model_lines(ctx, rt, ins)
     bad, diff = [], None
     n = 0
@@ -546,8 +579,11 @@ def header_streams(ctx):
     quick = ctx.tier == "quick"
     n32 = (1 << 16) if quick else (1 << 20)
     d32 = dictionary(8)
-    v32 = d32 + [(rng.getrandbits(1) << 31) | ((k % 255) << 23) | rng.getrandbits(23) for k in range(n32 - len(d32) % AIFF_CH)]
-    r32 = d32 + [(rng.getrandbits(1) << 31) | ((k % 256) << 23) | rng.getrandbits(23) for k in range(n32 - len(d32) % AIFF_CH)]
+    t32 = tiny_patterns(8, rng, 2048 if quick else 65536)          # subnormal / zero PEAK values (float32_be_write / _read, exponent field 0)
+    d32 = d32 + t32
+    d32 += d32[:(-len(d32)) % AIFF_CH]                              # whole files of AIFF_CH channels
+    v32 = d32 + [(rng.getrandbits(1) << 31) | ((k % 255) << 23) | rng.getrandbits(23) for k in range(n32)]
+    r32 = d32 + [(rng.getrandbits(1) << 31) | ((k % 256) << 23) | rng.getrandbits(23) for k in range(n32)]
     nr = 2048 if quick else 32768
     rates = [1, 2, 3, 7, 8000, 44100, 48000, 65535, 65536, 65537, (1 << 24) - 1, 1 << 24, (1 << 24) + 1, (1 << 30) - 1, 1 << 30,
              (1 << 31) - 1, (1 << 31) - 2, 0x55555555, 0x7FFFFFF0, 123456789]
@@ -566,25 +602,17 @@ def c01_script(fmt, ty, hexvals, n):
 
 
 def run_c01_replace(ctx):
-    """C01 for RAW float/double files written and read with the portable serialisers (SFC_TEST_IEEE_FLOAT_REPLACE)."""
-    kf = next((k for k in ctx.known if k.get("id") == KF_TINY and k.get("status") == "known"), None)
-    live = False
-    if kf is not None:
-        path = os.path.join(os.path.dirname(os.path.dirname(os.path.abspath(__file__))), kf["witness"])
-        head, script = open(path).read().split("--- script", 1)
-        lines, rc, err = ctx.script(script.lstrip("\n"))
-        sig = [l[len("signature-last "):].strip() for l in head.split("\n") if l.startswith("signature-last ")]
-        ctx.count(1, "ieee-tiny-witness")
-        if rc == 0 and lines and sig and sig[0] in lines[-1]:
-            live = True
-            ctx.known_finding(kf)
+    """C01 for RAW float/double files written and read with the portable serialisers (SFC_TEST_IEEE_FLOAT_REPLACE):
+    every finite value, incl. subnormals and both zeros (KF-C01-ieee-tiny is repaired; its witness runs with ctx.run_regressions)."""
     rng = ctx.rng
     n_rand = 16384 if ctx.tier == "quick" else 1 << 20
     tiny_seen = 0
     for ty, digits in (("f32", 8), ("f64", 16)):
         mb, eb = (23, 8) if digits == 8 else (52, 11)
         vals = [v for v in dictionary(digits) if is_finite(v, digits)]
+        vals += tiny_patterns(digits, rng, n_rand // 4)
         vals += [(rng.getrandbits(1) << (mb + eb)) | ((k % ((1 << eb) - 1)) << mb) | rng.getrandbits(mb) for k in range(n_rand)]
+        tiny_seen += sum(1 for v in vals if is_tiny(v, digits))
         for file_be in (False, True):
             fmt = "%x" % ((0x20000000 if file_be else 0x10000000) | 0x040000 | (6 if ty == "f32" else 7))
             name = "c01-replace-%s-%s" % (ty, "be" if file_be else "le")
@@ -600,20 +628,16 @@ def run_c01_replace(ctx):
             bad = None
             for k, v in enumerate(vals):
                 g = data[k * digits:(k + 1) * digits]
-                if int(g, 16) == v:
-                    continue
-                if is_tiny(v, digits) and int(g, 16) == 0 and live:
-                    tiny_seen += 1
-                    continue
-                bad = (v, g)
-                break
+                if int(g, 16) != v:
+                    bad = (v, g)
+                    break
             if bad:
                 v, g = bad
                 one = "%0*x" % (digits, v)
                 ctx.violation(name, "# C01 (portable IEEE path, SFC_TEST_IEEE_FLOAT_REPLACE on): the finite value %s is read back as %s after write, close, re-open%s\n"
-                              "expect-last data=%s\n--- script\n%s" % (one, g, "" if not is_tiny(v, digits) else " (class %s, but not its signature or its witness no longer fails)" % KF_TINY,
+                              "expect-last data=%s\n--- script\n%s" % (one, g, "" if not is_tiny(v, digits) else " (exponent field 0: a subnormal or -0.0, the class of the repaired %s)" % KF_TINY,
                                                                     one, c01_script(fmt, ty, one, 1)))
-    ctx.notes["ieee_c01"] = {"values_in_class_ieeeTiny_seen": tiny_seen, "patterns_per_stream": n_rand}
+    ctx.notes["ieee_c01"] = {"values_with_exponent_field_0_per_type_pair": tiny_seen, "patterns_per_stream": n_rand}
 
 
 def run_ieee(ctx):
@@ -648,7 +672,9 @@ def run_ieee(ctx):
         if kind == "kernel":
             return kernel_stream(ctx, what, n, seed + FLOAT_ROUTINES.index(what))
         ty, file_be, direction, rt, n, digits = what
-        vals = hexline(dictionary(digits), digits) + values(rt, n, seed + 100 + (1 if file_be else 0) + (2 if direction == "r" else 0))
+        sd = seed + 100 + (1 if file_be else 0) + (2 if direction == "r" else 0)
+        vals = (hexline(dictionary(digits), digits) + hexline(tiny_patterns(digits, random.Random(sd), max(4096, n // 16)), digits)
+                + values(rt, n, sd))
         return api_stream(ctx, ty, file_be, direction, vals, len(vals) // digits)
 
     with concurrent.futures.ThreadPoolExecutor(max_workers=4) as ex:
